@@ -516,6 +516,49 @@ func ruleENC(c *Ctx) {
 			lenCall = cs.Value()
 		}
 	}
+	// the size test may live in a predicate method of the encoder: `func (e) full() bool { return e.wb.Len() >= e.size }`
+	var sizePred *ssa.Call   // the call of that predicate in Encode
+	var sizePredCmp Cmp      // its comparison, in the predicate's own values
+	var sizePredLen *ssa.Call
+	if lenCall == nil {
+		for _, cs := range callsIn(enc) {
+			h := cs.Static
+			if h == nil || cs.Value() == nil || !P.isModuleFunc(h) || len(h.Blocks) != 1 || h.Signature.Results().Len() != 1 || !isBasicKind(h.Signature.Results().At(0).Type(), types.Bool) {
+				continue
+			}
+			if len(cs.Common.Args) != 1 || cs.Common.Args[0] != ssa.Value(enc.Params[0]) {
+				continue
+			}
+			rs := returnsOf(h)
+			if len(rs) != 1 {
+				continue
+			}
+			// go/ssa routes calls between generic methods through a forwarding wrapper: look through it
+			for i := 0; i < 2; i++ {
+				fw, isCall := resolvedResults(rs[0])[0].(*ssa.Call)
+				if !isCall || fw.Call.StaticCallee() == nil || len(fw.Call.StaticCallee().Blocks) != 1 || !P.isModuleFunc(fw.Call.StaticCallee()) {
+					break
+				}
+				h = fw.Call.StaticCallee()
+				rs = returnsOf(h)
+				if len(rs) != 1 {
+					break
+				}
+			}
+			if len(rs) != 1 {
+				continue
+			}
+			cmp, isCmp := asCmp(resolvedResults(rs[0])[0], true)
+			if !isCmp {
+				continue
+			}
+			for _, hc := range callsIn(h) {
+				if hc.Static != nil && qualNameShort(hc.Static) == "(*WriteBuf).Len" && hc.Value() != nil {
+					sizePred, sizePredCmp, sizePredLen = cs.Value(), cmp, hc.Value()
+				}
+			}
+		}
+	}
 	inLoop := func(fn *ssa.Function, in ssa.Instruction) bool { return innermostLoop(fn, in.Block()) != nil }
 	domAllReturns := func(fn *ssa.Function, in ssa.Instruction) bool {
 		for _, r := range returnsOf(fn) {
@@ -551,19 +594,47 @@ func ruleENC(c *Ctx) {
 		okC = isB && bo.Op == token.ADD && isOne && one == 1 && loadOfEncoderField(bo.X, "count")
 	}
 	c.Check(okC, key+"/count-incr", P.pos(enc.Pos()), "e.count is incremented by exactly one on every path", "e.count is not incremented by exactly one on every path of Encode")
-	okOrder := okW && lenCall != nil && dominatesInstr(writes[0], lenCall) && (len(countStores) == 0 || len(flushCalls) == 0 || dominatesInstr(countStores[0], flushCalls[0]))
+	var sizeTest ssa.Instruction
+	if lenCall != nil {
+		sizeTest = lenCall
+	} else if sizePred != nil {
+		sizeTest = sizePred
+	}
+	okOrder := okW && sizeTest != nil && dominatesInstr(writes[0], sizeTest) && (len(countStores) == 0 || dominatesInstr(countStores[0], sizeTest)) && (len(countStores) == 0 || len(flushCalls) == 0 || dominatesInstr(countStores[0], flushCalls[0]))
 	c.Check(okOrder, key+"/write-before-size-test", P.pos(enc.Pos()), "the record is appended and counted before the buffer size is tested", "the buffer size is tested (or the flush happens) before the record was appended and counted")
 
 	// --- ENC-2
 	c.Rule("ENC-2", "Encode flushes exactly when the buffered length has reached the configured block size", 1)
 	k2 := key + "/flush-condition"
-	if len(flushCalls) != 1 || lenCall == nil {
+	if len(flushCalls) != 1 || lenCall == nil && sizePred == nil {
 		c.Bad(k2, P.pos(enc.Pos()), fmt.Sprintf("expected one Flush call and one Len call in Encode, found %d and %v", len(flushCalls), lenCall != nil))
 	} else {
 		fc := flushCalls[0]
 		ok := false
 		var T *ssa.BasicBlock
 		for _, f := range factsAt(fc.Block()) {
+			if sizePred != nil {
+				// the predicate's truth stands for its comparison
+				cond, truth := f.Cond, f.Truth
+				for {
+					if u, isNot := cond.(*ssa.UnOp); isNot && u.Op == token.NOT {
+						cond, truth = u.X, !truth
+						continue
+					}
+					break
+				}
+				if cond == ssa.Value(sizePred) && truth {
+					cmp := sizePredCmp
+					if loadOfEncoderField(cmp.X, "approxBlockSize") {
+						cmp = Cmp{X: cmp.Y, Y: cmp.X, Op: swapOp(cmp.Op)}
+					}
+					if cmp.X == ssa.Value(sizePredLen) && loadOfEncoderField(cmp.Y, "approxBlockSize") && cmp.Op == token.GEQ && loadOfEncoderField(sizePredLen.Call.Args[0], "wb") {
+						ok = true
+						T = f.Target
+					}
+				}
+				continue
+			}
 			cmp, isCmp := asCmp(f.Cond, f.Truth)
 			if !isCmp {
 				continue
